@@ -24,6 +24,10 @@ type Job struct {
 	Repeats int     `json:"repeats"` // repeated loads per enforced completion order
 	GMP     int     `json:"gmp"`
 	Hook    bool    `json:"hook"` // enumerate completion orders with the hooks
+	// DryEvery n: the dry run (a consequence of the compiled tasks that every
+	// load dumps anyway) is part of every n-th free-running load and of every
+	// load under an enforced completion order
+	DryEvery int `json:"dry_every"`
 }
 
 // Kinds of observable a dump is split into. Each is compared on its own, so a
